@@ -124,7 +124,7 @@ func (c08) Gen(seed uint64, run int, tier string) *core.Case {
 			sort.Ints(op.Parts)
 			op.Parts = uniqInts(op.Parts)
 			if r.IntN(2) == 0 {
-				op.Bad = []string{"wrong-etag", "missing-part", "descending", "small-middle", "empty", "wrong-size-header", "repeated", "repeated"}[r.IntN(8)]
+				op.Bad = []string{"wrong-etag", "missing-part", "descending", "small-middle", "empty", "wrong-size-header", "repeated", "repeated", "wrong-object-checksum", "wrong-object-checksum"}[r.IntN(10)]
 			}
 		case x < 88:
 			op.Kind = "abort"
@@ -228,6 +228,9 @@ type c08Upload struct {
 	Parts map[int]*c08Part
 	Open  bool
 	Gen   int
+	// Algo: the upload was created with this checksum algorithm (crc32) and type FULL_OBJECT: every part is
+	// uploaded with its checksum, the completion may assert the checksum of the whole object
+	Algo string
 }
 
 func (c08) Exec(c *core.Case) (out *core.Outcome) {
@@ -326,13 +329,18 @@ func (c08) Exec(c *core.Case) (out *core.Outcome) {
 			h := []KV{{K: "Content-Type", V: fmt.Sprintf("application/x-u%d-g%d", op.U, gen)}, {K: "X-Amz-Meta-Upload", V: fmt.Sprintf("u%d-g%d", op.U, gen)}, {K: "Cache-Control", V: "max-age=" + fmt.Sprint(op.U+1)}}
 			tags := []s3c.Tag{{Key: "upload", Value: fmt.Sprintf("u%d", op.U)}}
 			hh := append(append([]KV{}, h...), KV{K: "X-Amz-Tagging", V: s3c.TaggingHeader(tags)})
+			algo := ""
+			if (op.U+gen)%2 == 0 {
+				algo = "crc32"
+				hh = append(hh, KV{K: "X-Amz-Checksum-Algorithm", V: "CRC32"}, KV{K: "X-Amz-Checksum-Type", V: "FULL_OBJECT"})
+			}
 			res := cl.Do(s3c.CreateMPU(bkt, key, hh...))
 			if !res.Resp.OK() {
 				continue
 			}
 			var init s3c.InitiateMPUResult
 			xml.Unmarshal(res.Resp.Body, &init)
-			nu := &c08Upload{ID: init.UploadId, Key: key, Hdrs: h, HMap: hdrMap(h), Meta: metaMap(h), Tags: tags, Parts: map[int]*c08Part{}, Open: true, Gen: gen}
+			nu := &c08Upload{ID: init.UploadId, Key: key, Hdrs: h, HMap: hdrMap(h), Meta: metaMap(h), Tags: tags, Parts: map[int]*c08Part{}, Open: true, Gen: gen, Algo: algo}
 			for _, other := range openUploads() {
 				if other.Key == key {
 					sameKey = true
@@ -347,7 +355,11 @@ func (c08) Exec(c *core.Case) (out *core.Outcome) {
 				continue
 			}
 			data := s3c.GenData(op.Seed, op.Size)
-			res := cl.DoConn(s3c.UploadPart(bkt, key, u.ID, op.N, data), envConn(op.Frag))
+			var ph []KV
+			if u.Algo != "" {
+				ph = append(ph, KV{K: "X-Amz-Checksum-" + u.Algo, V: s3c.Checksum(u.Algo, data)})
+			}
+			res := cl.DoConn(s3c.UploadPart(bkt, key, u.ID, op.N, data, ph...), envConn(op.Frag))
 			if !u.Open {
 				if res.Resp.OK() {
 					viol("id-usable-after-end", "op %d: UploadPart on an upload id that was completed/aborted -> %d", i, res.Resp.Status)
@@ -601,7 +613,11 @@ func (c08) Exec(c *core.Case) (out *core.Outcome) {
 					et = "\"ffffffffffffffffffffffffffffffff\""
 					valid = false
 				}
-				cps = append(cps, s3c.CPart{N: n, ETag: et})
+				cp := s3c.CPart{N: n, ETag: et}
+				if u.Algo != "" && mp != nil {
+					cp.CkAlgo, cp.Ck = u.Algo, s3c.Checksum(u.Algo, mp.Data)
+				}
+				cps = append(cps, cp)
 			}
 			if op.Bad == "missing-part" {
 				cps = append(cps, s3c.CPart{N: 9, ETag: "\"00000000000000000000000000000000\""})
@@ -611,6 +627,15 @@ func (c08) Exec(c *core.Case) (out *core.Outcome) {
 				why = ""
 			}
 			var hdrs []KV
+			if op.Bad == "wrong-object-checksum" {
+				if u.Algo != "" && valid {
+					// everything listed is right; the asserted checksum of the whole object is not
+					hdrs = append(hdrs, KV{K: "X-Amz-Checksum-" + u.Algo, V: s3c.Checksum(u.Algo, []byte("not the object"))})
+					valid = false
+				} else {
+					why = ""
+				}
+			}
 			if op.Bad == "wrong-size-header" {
 				hdrs = append(hdrs, KV{K: "X-Amz-Mp-Object-Size", V: "3"})
 				total := 0
